@@ -131,6 +131,9 @@ ASSUMPTIONS = [
     "make_bins() returns a new object on every call.  run_impl deep-copies every argument and builds one object per "
     "case, so none of this is exercised; the per-fill 'exactly one cell changed' oracle does see aliasing INSIDE one "
     "histogram (rows sharing a list)",
+    "user-supplied bins whose inner shape does not match the edges are outside the property: such cases are generated, "
+    "but the correspondence stops at the first fill on which model and implementation part (a refactoring may turn "
+    "'IndexError counted as out of range' into a raised IndexError there)",
     "for the element only the final state of a history is judged by the oracle (per-fill deltas are judged on the "
     "structure); the state is read from Histogram._hist / _cur_context (fallback: compute())",
 ]
@@ -1087,6 +1090,13 @@ def compare(case, res, replies):
                 return f"NArr.full (dimsOf ..): {m['full']} vs init_bins {res['bins']}"
         return None
     m = replies[0]
+    if op in ("elem", "elem2"):
+        # user-supplied bins / make_bins() of a wrong inner shape: outside the property, not compared (see ASSUMPTIONS)
+        axes_ = _valid_axes(case["edges"])
+        for b_ in (case.get("bins"), case.get("mk")):
+            if b_ is not None and axes_ is not None and not _well_shaped(b_, [len(a_) - 1 for a_ in axes_]) \
+                    and not ("e" in res and res.get("phase") == "init") and not ("e" in m and m.get("phase") == "init"):
+                return None
     if "e" in res or "e" in m:
         if res.get("e") != m.get("e") or res.get("phase") != m.get("phase"):
             return f"impl {_short(res)} vs model {_short(m)}"
@@ -1096,10 +1106,17 @@ def compare(case, res, replies):
     if op == "hist":
         if len(res["steps"]) != len(m["steps"]):
             return "different numbers of steps"
+        # user-supplied bins of a wrong inner shape: outside the property; how exactly a fill fails there (IndexError
+        # counted as out of range, or raised) is not demanded - the comparison stops where the two sides part
+        axes_ = _valid_axes(case["edges"])
+        lenient = (case["bins"] is not None and
+                   (axes_ is None or not _well_shaped(case["bins"], [len(a_) - 1 for a_ in axes_])))
         for i, (a, b) in enumerate(zip(res["steps"], m["steps"])):
             f = case["fills"][i]
             if a.get("shape_changed"):
                 return f"fill #{i} {f}: impl changed the shape of bins"
+            if lenient and (("e" in a) != ("e" in b) or a.get("e") != b.get("e") or a.get("oor") != b.get("oor")):
+                return None
             if "e" in a or "e" in b:
                 if a.get("e") != b.get("e"):
                     return f"fill #{i} {f}: impl {a} vs model {b}"
